@@ -75,8 +75,8 @@ def run_cases(binary, wd, name, cases, j=None):
     return out, info
 
 
-def judge(rep, wd, trace_path, invariants, label, chunk=4000):
-    """Run CoreObs over the trace (in chunks of whole traces). Returns (per_trace_events, verdicts, hazards)."""
+def judge(rep, wd, trace_path, invariants, label, chunk=4000, module="CoreObs"):
+    """Run CoreObs (or another judge module of the same conventions) over the trace (in chunks of whole traces). Returns (per_trace_events, verdicts, hazards)."""
     per, order = {}, []
     with open(trace_path) as fh:
         for line in fh:
@@ -101,11 +101,11 @@ def judge(rep, wd, trace_path, invariants, label, chunk=4000):
         k += 1
         with open(os.path.join(wd, "core_trace.ndjson"), "w") as fh:
             fh.writelines(b)
-        r = vlib.run_tlc("CoreObs", "CoreObs_run.cfg", wd, workers=1, timeout=1800, files={"CoreObs_run.cfg": cfg})
-        vlib.tlc_expect_ok(r, "CoreObs")
+        r = vlib.run_tlc(module, module + "_run.cfg", wd, workers=1, timeout=1800, files={module + "_run.cfg": cfg})
+        vlib.tlc_expect_ok(r, module)
         if not r.ok:
-            raise vlib.MachineryError("CoreObs did not complete:\n%s" % r.out[-3000:])
-        rep.add_tlc("CoreObs(%s#%d)" % (label, k), r, "judge over %d observed events" % len(b))
+            raise vlib.MachineryError("%s did not complete:\n%s" % (module, r.out[-3000:]))
+        rep.add_tlc("%s(%s#%d)" % (module, label, k), r, "judge over %d observed events" % len(b))
         for name, l, t, i in vlib.verdicts(r.out):
             verdicts.setdefault(t, []).append((name, i))
         for m in vlib.re.finditer(r'<<"HAZARD", "(\w+)", (-?\d+), (-?\d+), (-?\d+)>>', r.out):
@@ -279,6 +279,88 @@ def classify(rep, prop, cases_by_id, events, verdicts, hazards, my_invariants, l
             names, label, t, sorted(set(i for _, i in items))[:5], sorted(hz)),
             {"cfg": c["cfg"], "sched": c["sched"], "violated": items, "hazards": sorted(hz), "steps": slim})
     return nviol
+
+
+# --------------------------------------------------------------------------------------------------------------
+# daemon mode: the real Store with all its monitors running next to a live application writer (harness/core/daemon.go)
+
+DAEMON_INV = ["D_AckRestoreEqualsSource", "D_FinalRestoreEqualsSource", "D_EveryTxidIsACommittedState", "D_ReplicaMonotone",
+              "D_Level0OneRun", "D_LevelsContiguous", "D_SnapshotKept", "D_StopReturns", "D_NoLeakAfterStop",
+              "D_SourceNotPinned", "D_NoPanic"]
+
+
+def daemon_cases(seed, n, first_id=0, steps=(40, 90)):
+    rnd = random.Random(seed * 7793 + 17)
+    cases = []
+    for k in range(n):
+        sched = [["DaemonStart"]]
+        for _ in range(rnd.randint(*steps)):
+            x = rnd.random()
+            if x < 0.45:
+                sched.append(["AppWrite", rnd.randint(1, 6)])
+            elif x < 0.55:
+                sched.append(["AppWrite2", rnd.randint(1, 6), rnd.randint(1, 6)])
+            elif x < 0.65:
+                sched.append(["AppGrow", rnd.randint(1, 3)])
+            elif x < 0.70:
+                sched += [["AppDelete", 1], ["AppReclaim"]]
+            elif x < 0.76:
+                sched.append(["AppCheckpoint", rnd.choice(["PASSIVE", "FULL", "RESTART", "TRUNCATE"])])
+            elif x < 0.86:
+                sched.append(["SyncWait"])
+            else:
+                sched.append(["Sleep", rnd.randint(5, 80)])
+            if rnd.random() < 0.5:
+                sched.append(["Sleep", rnd.randint(1, 20)])
+        if rnd.random() < 0.7:
+            sched.append(["SyncWait"])
+        sched += [["DaemonStop"], ["Validate"], ["AuditNow"], ["RestoreCheck"], ["AppCheckpoint", "TRUNCATE"]]
+        cfg = mk_cfg(seed * 1009 + k, page_size=[4096, 512, 1024][k % 3], rows=6, init_ckpt=(k % 2 == 0),
+                     auto_vacuum=["none", "none", "incremental"][k % 3],
+                     min_pg=[1000, 4, 2][k % 3], trunc_pg=[0, 0, 9][(k // 3) % 3], max_bytes=0)
+        fast = k % 2 == 0
+        cfg["daemon"] = {"monMs": rnd.choice([5, 10, 25]), "syncMs": rnd.choice([5, 10, 30]),
+                         "l1Ms": 60 if fast else 150, "l2Ms": 200 if fast else 450, "snapMs": rnd.choice([250, 500, 900]),
+                         "snapRetMs": rnd.choice([300, 700, 1500]), "l0RetMs": rnd.choice([50, 150, 400]), "l0CheckMs": rnd.choice([40, 90]),
+                         "shutdownMs": 3000, "validateMs": rnd.choice([0, 150])}
+        cases.append({"id": first_id + k, "cfg": cfg, "sched": sched, "label": "daemon"})
+    return cases
+
+
+def daemon_run(rep, binary, wd, cases, prop, name="daemon"):
+    """Run daemon-mode cases on the real code and judge them with DaemonObs.tla. Returns the number of violations."""
+    by_id = {c["id"]: c for c in cases}
+    out, info = run_cases(binary, wd, name, [{k: c[k] for k in ("id", "cfg", "sched")} for c in cases], j=4)
+    events, verdicts, hazards = judge(rep, wd, out, DAEMON_INV, prop + "-daemon", module="DaemonObs")
+    st = {"runs": len(events), "acks": 0, "acks_restored": 0, "txids_audited": 0, "txids_below_floor": 0, "compactions": 0,
+          "snapshots": 0, "l0_deleted_runs": 0, "validator_disagrees": 0, "clean_stops": 0}
+    for t, evs in events.items():
+        st["acks"] += sum(1 for e in evs if e["ack"])
+        st["acks_restored"] += sum(1 for e in evs if e["ack"] and e["rest"]["ok"])
+        for e in evs:
+            if e["op"] == "AuditNow":
+                st["txids_audited"] += len(e["audit"])
+                st["txids_below_floor"] += sum(1 for a in e["audit"] if not a["ok"])
+            if e["op"] == "DaemonStop" and e["res"] == "ok":
+                st["clean_stops"] += 1
+            if e["op"] == "Validate" and e["res"].startswith("invalid"):
+                st["validator_disagrees"] += 1
+                rep.notes.append("litestream's own Store.Validate reports the replica invalid (trace %d): %s" % (t, e["res"][:200]))
+        last = evs[-1]["remote"] if evs else []
+        st["compactions"] += sum(1 for f in last if f[0] in (1, 2))
+        st["snapshots"] += sum(1 for f in last if f[0] == 9)
+        l0 = [f[1] for f in last if f[0] == 0]
+        st["l0_deleted_runs"] += 1 if l0 and min(l0) > 1 else 0
+    rep.cov["daemon_mode"] = st
+    nv = 0
+    for t, items in sorted(verdicts.items()):
+        names = sorted(set(n for n, _ in items))
+        c = by_id[t]
+        slim = [{k: e[k] for k in ("i", "op", "arg", "n", "res", "ack", "rpos", "app")} for e in events.get(t, [])]
+        rep.violation("%s violated by the real daemon (Store with all monitors running, trace %d, steps %s)" % (
+            names, t, sorted(set(i for _, i in items))[:5]), {"cfg": c["cfg"], "sched": c["sched"], "violated": items, "steps": slim[-60:]})
+        nv += 1
+    return nv, events
 
 
 # --------------------------------------------------------------------------------------------------------------
